@@ -30,7 +30,9 @@ mod verif_replay_x {
                     for node in &doc.nodes {
                         if let RustType::Complex(p) = &node.rust_type {
                             if p.xml_name == "T" {
-                                let names: Vec<String> = p.fields.iter().map(|f| format!("{}{}", if f.is_attribute { "@" } else { "" }, f.xml_name)).collect();
+                                let flags = id.starts_with('o');
+                                let names: Vec<String> = p.fields.iter().map(|f| format!("{}{}{}", if f.is_attribute { "@" } else { "" }, f.xml_name,
+                                    if !flags { "" } else if f.is_vec { "!V" } else if f.is_optional { "!O" } else { "!T" })).collect();
                                 println!("X|{id}|{}", names.join(","));
                                 shown = true;
                             }
@@ -81,10 +83,10 @@ def cases():
     roots = []
     for n in range(0, 4):
         pool = [('e',), ('g',), ('s', ()), ('c', ()), ('c', (('e',),)), ('s', (('e',), ('e',))), ('c', (('s', (('e',), ('e',))), ('e',))),
-                ('s', (('c', (('e',),)), ('s', (('e',),)), ('e',))), ('c', (('g',), ('s', ())))]
+                ('s', (('c', (('e',),)), ('s', (('e',),)), ('e',))), ('c', (('g',), ('s', ()))), ('c', (('c', (('e',), ('e',))), ('e',)))]
         for kids in itertools.product(pool, repeat=n):
             roots.append(('s', kids))
-    roots = roots[:830]
+    roots = roots[:1120]
     k = 0
     DOC = '<xs:annotation><xs:documentation>about this</xs:documentation></xs:annotation>'
     for ri, root in enumerate(roots):
@@ -103,6 +105,32 @@ def cases():
                         xml = HEAD + f'<xs:complexType name="T">{doc}{body}{attrs}</xs:complexType></xs:schema>'
                     out.append((f'c{k}', xml, ','.join(want)))
                     k += 1
+    # occurrence family: a member under 1..3 nested groups, every combination of group kind and occurrence attributes on each level and on the member;
+    # expected wrapper from the property: Vec if the member or an enclosing group may repeat, else Option if the member or an enclosing group is optional
+    # or the member is in a choice, else bare
+    OCC = [('', False, False), (' minOccurs="0"', True, False), (' maxOccurs="unbounded"', False, True), (' maxOccurs="3"', False, True), (' minOccurs="0" maxOccurs="1"', True, False)]
+    LEAF = [('', False, False), (' minOccurs="0"', True, False), (' maxOccurs="unbounded"', False, True), (' minOccurs="1" maxOccurs="1"', False, False)]
+    ko = 0
+    for depth in (1, 2, 3):
+        for kinds in itertools.product(('sequence', 'choice'), repeat=depth):
+            for occs in itertools.product(range(len(OCC)), repeat=depth):
+                if depth == 3 and (sum(occs) + ko) % 3:        # thin out the deepest level
+                    ko += 1
+                    continue
+                for (la, lopt, lvec) in LEAF:
+                    opt = lopt or any(OCC[o][1] for o in occs) or 'choice' in kinds
+                    vec = lvec or any(OCC[o][2] for o in occs)
+                    flag = '!V' if vec else ('!O' if opt else '!T')
+                    inner = f'<xs:element name="m" type="xs:string"{la}/><xs:element name="z" type="xs:int"/>'
+                    zopt = any(OCC[o][1] for o in occs) or 'choice' in kinds
+                    zvec = any(OCC[o][2] for o in occs)
+                    zflag = '!V' if zvec else ('!O' if zopt else '!T')
+                    for kd, o in reversed(list(zip(kinds, occs))):
+                        inner = f'<xs:{kd}{OCC[o][0]}>{inner}</xs:{kd}>'
+                    # the type's own content is a plain sequence holding a first member and the nested groups
+                    xml = HEAD + f'<xs:complexType name="T"><xs:sequence><xs:element name="first" type="xs:string"/>{inner}</xs:sequence><xs:attribute name="req" type="xs:string" use="required"/><xs:attribute name="opt" type="xs:string"/></xs:complexType></xs:schema>'
+                    out.append((f'o{ko}', xml, f'first!T,m{flag},z{zflag},@req!T,@opt!O'))
+                    ko += 1
     # derived types without a sequence of their own
     for nattr in (0, 1, 3):
         attrs = ''.join(f'<xs:attribute name="a{i}" type="xs:string"/>' for i in range(nattr))
@@ -121,7 +149,7 @@ def _search(repo):
     rc, outp = run_test_module(MODULE.replace('@CASES@', path), 'verif_replay_x::flatten', repo, host_file='zeep-lib/src/reader.rs', timeout=240)
     want = {cid: (xml, w) for cid, xml, w in cs}
     res = {'trees_read_by_real_code': 0, 'anomalies': [], 'n': 0}
-    seen = set(re.findall(r'X\|(c\d+)\|', outp))
+    seen = set(re.findall(r"X\|(\w\d+)\|", outp))
     if rc == 124 or 'X|done|' not in outp:
         # the harness did not finish: the first tree without a result line is the one it hangs (or aborts) on
         for cid, xml, w in cs:
